@@ -15,6 +15,8 @@ type propSpec struct {
 	MinFrame  int
 	StoreScope Scope
 	MinStores int
+	SeqScope  Scope
+	MinSeq    int
 	MinFuncs  int
 	Check     func(r *Run)
 	NeedSSA   bool
@@ -76,6 +78,10 @@ func runEmit(prop string) int {
 	if len(spec.Scope.Include) > 0 && prop != "C12" {
 		r.EmitCondRef(prop+"_conds.json", spec.Scope)
 		fmt.Println(prop + ": wrote branch-condition reference")
+	}
+	if len(spec.SeqScope.Include) > 0 {
+		r.EmitSeqRef(prop+"_calls.json", spec.SeqScope)
+		fmt.Println(prop + ": wrote call-sequence reference")
 	}
 	if len(spec.StoreScope.Include) > 0 {
 		r.EmitStoreRef(prop+"_stores.json", spec.StoreScope)
